@@ -7,13 +7,37 @@ HOOK_COMMITS = ["70d35fd"]
 # id -> (technique, level text, level note, design ref) ; only ids present in CLAIMED are emitted as checks
 CHECKS = {
  "C01": ("bounded-exhaustive enumeration of rules x all HT interpretations (bit-parallel truth tables) against a reference semantics of mini-gringo",
-         "Every rule of the generated alphabets (all T_1/T_2 terms in every head/body/comparison context, adversarial variable names, 2-rule programs) is translated by the real tau_star(); the grounded formula and the reference semantics' ground instances are compared on every HT interpretation H subset-of T over the atom universe, at two window sizes. Exhaustive within the stated alphabet and slice.",
+         "Every rule of the generated alphabets (all T_1/T_2 terms in every head/body/comparison context, adversarial variable names, body atoms of arity 1-3, 2-rule programs) is translated by the real tau_star(); the grounded formula and the reference semantics' ground instances are compared on every HT interpretation H subset-of T over the atom universe, at two window sizes. Exhaustive within the stated alphabet and slice.",
          "trusted: reference semantics (engine/src/refsem.rs), grounder with skeleton solver (audited on a sub-enumeration), finite slice of the standard domain (window-stability monitored)", "4 C01"),
+ "C03": ("bounded-exhaustive enumeration of program pairs x flag combinations x ALL classical interpretations of the h-/t-copies, against HT truth tables of the reference semantics",
+         "For every ordered pair of programs of the alphabet and all 16 (representation, decomposition, simplify, eq-break) combinations the real StrongEquivalenceTask::decompose() is run; the set of interpretations (incl. H not inside T) refuting some forward/backward problem must equal the set of pairs H subset-of T satisfying one program and not the other under the reference semantics.",
+         "trusted: reference semantics, grounder, finite slice; h/t copies identified by the documented prefixing", "4 C03"),
+ "C04": ("bounded-exhaustive enumeration of tight programs x input sets x all classical interpretations; stable models computed from HT truth tables; supported-model oracle for hand-built theories",
+         "Every 1-3 rule program of a 40-rule alphabet that the real is_tight() accepts, with every subset of non-head predicates as inputs: models of completion(tau*(P), inputs) vs stable models with inputs from the reference semantics, plus one completed definition per non-input predicate; every 1-2 formula theory over 30 implication shapes: listed non-completability reasons imply refusal, accepted theories agree with supported models.",
+         "trusted: reference semantics and stable-model computation by enumeration, grounder, finite slice; theories whose heads use sorted variables are outside the oracle (counted)", "4 C04"),
+ "C05": ("bounded-exhaustive enumeration of formulas x assignments x all pairs H subset-of T; truth-table comparison of HT satisfaction with classical satisfaction of gamma(F)",
+         "Every formula of the formula families with every assignment of its free variables: the HT truth table of F equals the classical truth table of the real gamma(F) over the h-/t-copies restricted to H subset-of T; injectivity of the prefixing checked on a stress set of predicate names.",
+         "trusted: grounder, finite slice (gamma preserves binders, so both sides use identical quantifier candidates)", "4 C05"),
+ "C06": ("bounded-exhaustive enumeration of formulas; render through Problem's Display, read back with an independent TFF reader, compare truth tables on all interpretations",
+         "Every comparison chain of length 1-4 over mixed-sort operands in 14 connective/quantifier contexts, boundary numerals, placeholders of all sorts and connective nestings: the rendered TFF text is parsed by a reader written from the TPTP grammar and must have the same truth table as the source formula for all placeholder values.",
+         "trusted: the TFF reader's grammar choices (stated in evidence), grounder, finite slice", "4 C06"),
+ "C07": ("bounded-exhaustive enumeration of formulas x portfolios x strategies x assignments x all interpretations; truth-table equivalence (HT resp. classical)",
+         "Every formula of families A-G under each of the 3 portfolios and 3 strategies (composed exactly as procedures.rs does): output HT-equivalent (classically equivalent for classic) to the input under every free-variable assignment and interpretation, no new free variables; a violation is attributed to the first non-equivalent single rewrite step.",
+         "trusted: grounder with skeleton solver, finite slice with two-window stability", "4 C07"),
  "C08": ("bounded-exhaustive enumeration of rules x all HT interpretations; differential truth-table comparison natural/mu vs tau*",
          "For every rule of C01's alphabets, natural() (where it accepts) and mu() are grounded and compared with the tau* formula of the same rule on every HT interpretation, at two windows; mu must return one formula per rule and never panic.",
          "trusted: grounder/solver (audited), finite slice; tau* itself is anchored by C01", "4 C08"),
+ "C09": ("exhaustive enumeration of tasks x identifier-stress renamings x flag combinations; every emitted problem parsed and type-checked by an independent TFF reader",
+         "All external tasks of the task alphabet and a stride of strong tasks, instantiated with the identifier stress renamings and hand-picked clash tasks, under all 8 flag combinations: every problem text must parse, declare every used symbol exactly once at the type it is used with, bind and type every variable, have unique formula names and exactly one conjecture.",
+         "trusted: the TFF reader (symbols identified by name and arity); three identifier-shape findings are listed in KNOWN_FINDINGS.txt", "4 C09"),
+ "C12": ("exhaustive evaluation of the preamble axioms over integer windows and of every generated ordering / transition axiom of every problem of the task enumeration",
+         "Preamble axioms are read by the TFF reader and evaluated in the standard interpretation for all assignments over two windows; for every problem of C09's enumeration every symbol_order axiom must be true under the denotation map, the axioms must link all constants, and every transition axiom must hold exactly on interpretations with H subset-of T.",
+         "trusted: TFF reader, standard order implemented in engine/src/dom.rs; integer quantifiers over windows as the property itself stipulates", "4 C12"),
+ "C17": ("bounded-exhaustive enumeration of (formula, variable, term) x assignments x all classical interpretations; truth-table comparison with environment update",
+         "Every (formula, variable, sort-compatible term) of the binder-heavy families: the truth table of F.substitute(x,t) equals that of F under the assignment updated with the term's value, and the free-variable equation holds.",
+         "trusted: grounder (both sides have the same binder structure, so windows play no role)", "4 C17"),
 }
-CLAIMED = ["C01", "C08"]
+CLAIMED = ["C01", "C03", "C04", "C05", "C06", "C07", "C08", "C09", "C12", "C17"]
 
 NOT_YET = "engine for this property not built yet in this session (see DESIGN.md section 9)"
 
